@@ -726,6 +726,7 @@ def run(ctx):
     # leaving of a scope entered for the schema's id included -- swallows it (C12-r7m1)
     from . import scope as _scope
     _scope.rule_scope_entered(ctx, "R12.14")
+    _scope.rule_no_jump_in_finally(ctx, "R12.15", ('validators', '_validators', '_legacy_validators', '_utils', '_format', '_types', 'exceptions'), "the validation path")
     rule_single_pass(ctx)
     # R12.8: "without a format checker format has no effect" also where the library validates on the caller's behalf: check_schema
     # (and so jsonschema.validate) checks the schema against the metaschema with no format checker
